@@ -60,6 +60,15 @@ pub trait SimHooks: Send + Sync {
     /// Called *after* the operation with its outcome (1 = found / replaced /
     /// popped something, 0 = not).  Never a scheduling point.
     fn after(&self, _site: Site, _key: u64, _outcome: u64) {}
+    /// Called before a map operation that needs the lock of `shard` of map `map` (usize::MAX =
+    /// every shard), shared or exclusive.  A simulator that deschedules threads while they hold
+    /// map guards must not return before no *other* simulated thread holds a conflicting guard
+    /// (it runs other threads meanwhile).  Default: return at once.
+    fn acquire(&self, _map: usize, _shard: usize, _exclusive: bool) {}
+    /// The calling thread now holds a guard on that shard (until `release`).
+    fn hold(&self, _map: usize, _shard: usize, _exclusive: bool) {}
+    /// The guard is gone.
+    fn release(&self, _map: usize, _shard: usize, _exclusive: bool) {}
     /// The simulated wall clock, in milliseconds.
     fn now_millis(&self) -> u64;
     /// Seed for the map hasher (decides iteration order).
@@ -77,7 +86,7 @@ thread_local! {
     static MUTED: Cell<u32> = const { Cell::new(0) };
     static GUARDS: Cell<u32> = const { Cell::new(0) };
     /// (shard index or usize::MAX for "all shards", exclusive?) of the map guards this thread holds
-    static HELD: RefCell<Vec<(usize, bool)>> = const { RefCell::new(Vec::new()) };
+    static HELD: RefCell<Vec<(usize, usize, bool)>> = const { RefCell::new(Vec::new()) };
 }
 
 /// Install a hook object on the calling thread; returns the previous one.
@@ -162,17 +171,21 @@ pub fn fingerprint<K: Hash + ?Sized>(k: &K) -> u64 {
     h.finish()
 }
 
-struct DepthGuard(Option<(usize, bool)>, PhantomData<*const ()>);
+struct DepthGuard(Option<(usize, usize, bool)>, PhantomData<*const ()>);
 impl DepthGuard {
     fn new() -> Self {
         GUARDS.with(|g| g.set(g.get() + 1));
         DepthGuard(None, PhantomData)
     }
-    /// A guard that holds the lock of `shard` (usize::MAX: any shard), shared or exclusive.
-    fn holding(shard: usize, exclusive: bool) -> Self {
+    /// A guard that holds the lock of `shard` of `map` (usize::MAX: every shard), shared or
+    /// exclusive.  Call `acquire` first.
+    fn holding(map: usize, shard: usize, exclusive: bool) -> Self {
         GUARDS.with(|g| g.set(g.get() + 1));
-        HELD.with(|h| h.borrow_mut().push((shard, exclusive)));
-        DepthGuard(Some((shard, exclusive)), PhantomData)
+        HELD.with(|h| h.borrow_mut().push((map, shard, exclusive)));
+        if let Some(h) = hook() {
+            h.hold(map, shard, exclusive);
+        }
+        DepthGuard(Some((map, shard, exclusive)), PhantomData)
     }
 }
 impl Drop for DepthGuard {
@@ -185,21 +198,27 @@ impl Drop for DepthGuard {
                     h.remove(i);
                 }
             });
+            if let Some(h) = hook() {
+                h.release(x.0, x.1, x.2);
+            }
         }
     }
 }
 
-/// A map operation that needs the lock of `shard` (exclusively or shared) while this very thread
-/// already holds a conflicting lock on it would block forever. Under the simulator that hang is
-/// turned into a panic, which the harness reports.
-fn check_self_deadlock(shard: usize, exclusive: bool) {
+/// Before a map operation that needs the lock of `shard` of `map`: a conflicting lock held by
+/// this very thread would block forever (under the simulator that hang becomes a panic, which
+/// the harness reports); one held by another simulated thread is waited for cooperatively.
+fn acquire(map: usize, shard: usize, exclusive: bool) {
     let conflict = HELD.with(|h| {
-        h.borrow()
-            .iter()
-            .any(|(s, ex)| (*s == shard || *s == usize::MAX) && (exclusive || *ex))
+        h.borrow().iter().any(|(m, s, ex)| {
+            *m == map && (*s == shard || *s == usize::MAX || shard == usize::MAX) && (exclusive || *ex)
+        })
     });
     if conflict {
         panic!("verif: self-deadlock: map operation on a shard whose lock this thread already holds");
+    }
+    if let Some(h) = hook() {
+        h.acquire(map, shard, exclusive);
     }
 }
 
@@ -598,6 +617,10 @@ pub mod map {
     }
 
     impl<K: Eq + Hash, V> DashMap<K, V> {
+        fn id(&self) -> usize {
+            &self.inner as *const Inner<K, V> as usize
+        }
+
         /// Index of the shard holding `key` (same formula as dashmap 6.x `determine_shard`).
         fn shard_of<Q: Hash + ?Sized>(&self, key: &Q) -> usize {
             let hash = self.inner.hash_usize(&key);
@@ -625,7 +648,7 @@ pub mod map {
         pub fn insert(&self, key: K, value: V) -> Option<V> {
             let fp = fingerprint(&key);
             step(Site::MapInsert, fp);
-            super::check_self_deadlock(self.shard_of(&key), true);
+            super::acquire(self.id(), self.shard_of(&key), true);
             let r = self.inner.insert(key, value);
             after(Site::MapInsert, fp, r.is_some() as u64);
             r
@@ -638,7 +661,7 @@ pub mod map {
         {
             let fp = fingerprint(key);
             step(Site::MapRemove, fp);
-            super::check_self_deadlock(self.shard_of(key), true);
+            super::acquire(self.id(), self.shard_of(key), true);
             let r = self.inner.remove(key);
             after(Site::MapRemove, fp, r.is_some() as u64);
             r
@@ -651,8 +674,8 @@ pub mod map {
         {
             let fp = fingerprint(key);
             step(Site::MapRemove, fp);
-            super::check_self_deadlock(self.shard_of(key), true);
-            let _g = DepthGuard::holding(self.shard_of(key), true);
+            super::acquire(self.id(), self.shard_of(key), true);
+            let _g = DepthGuard::holding(self.id(), self.shard_of(key), true);
             let r = self.inner.remove_if(key, f);
             after(Site::MapRemove, fp, r.is_some() as u64);
             r
@@ -669,8 +692,8 @@ pub mod map {
         {
             let fp = fingerprint(key);
             step(Site::MapRemove, fp);
-            super::check_self_deadlock(self.shard_of(key), true);
-            let _g = DepthGuard::holding(self.shard_of(key), true);
+            super::acquire(self.id(), self.shard_of(key), true);
+            let _g = DepthGuard::holding(self.id(), self.shard_of(key), true);
             let r = self.inner.remove_if_mut(key, f);
             after(Site::MapRemove, fp, r.is_some() as u64);
             r
@@ -684,10 +707,10 @@ pub mod map {
             let fp = fingerprint(key);
             step(Site::MapGet, fp);
             let shard = self.shard_of(key);
-            super::check_self_deadlock(shard, false);
+            super::acquire(self.id(), shard, false);
             let r = self.inner.get(key).map(|inner| Ref {
                 inner,
-                _g: DepthGuard::holding(shard, false),
+                _g: DepthGuard::holding(self.id(), shard, false),
             });
             after(Site::MapGet, fp, r.is_some() as u64);
             r
@@ -701,10 +724,10 @@ pub mod map {
             let fp = fingerprint(key);
             step(Site::MapGet, fp);
             let shard = self.shard_of(key);
-            super::check_self_deadlock(shard, true);
+            super::acquire(self.id(), shard, true);
             let r = self.inner.get_mut(key).map(|inner| RefMut {
                 inner,
-                _g: DepthGuard::holding(shard, true),
+                _g: DepthGuard::holding(self.id(), shard, true),
             });
             after(Site::MapGet, fp, r.is_some() as u64);
             r
@@ -717,7 +740,7 @@ pub mod map {
         {
             let fp = fingerprint(key);
             step(Site::MapGet, fp);
-            super::check_self_deadlock(self.shard_of(key), false);
+            super::acquire(self.id(), self.shard_of(key), false);
             let r = self.inner.contains_key(key);
             after(Site::MapGet, fp, r as u64);
             r
@@ -730,7 +753,8 @@ pub mod map {
         {
             let fp = fingerprint(key);
             step(Site::MapGet, fp);
-            let _g = DepthGuard::new();
+            super::acquire(self.id(), self.shard_of(key), false);
+            let _g = DepthGuard::holding(self.id(), self.shard_of(key), false);
             let r = self.inner.view(key, f);
             after(Site::MapGet, fp, r.is_some() as u64);
             r
@@ -743,49 +767,50 @@ pub mod map {
         {
             let fp = fingerprint(key);
             step(Site::MapOther, fp);
-            let _g = DepthGuard::new();
+            super::acquire(self.id(), self.shard_of(key), true);
+            let _g = DepthGuard::holding(self.id(), self.shard_of(key), true);
             self.inner.alter(key, f)
         }
         /// See dashmap.
         pub fn retain(&self, f: impl FnMut(&K, &mut V) -> bool) {
             step(Site::MapOther, 0);
-            super::check_self_deadlock(usize::MAX, true);
-            let _g = DepthGuard::holding(usize::MAX, true);
+            super::acquire(self.id(), usize::MAX, true);
+            let _g = DepthGuard::holding(self.id(), usize::MAX, true);
             self.inner.retain(f)
         }
         /// See dashmap.
         pub fn clear(&self) {
             step(Site::MapOther, 0);
-            super::check_self_deadlock(usize::MAX, true);
+            super::acquire(self.id(), usize::MAX, true);
             self.inner.clear()
         }
         /// See dashmap.
         pub fn len(&self) -> usize {
             step(Site::MapLen, 0);
-            super::check_self_deadlock(usize::MAX, false);
+            super::acquire(self.id(), usize::MAX, false);
             self.inner.len()
         }
         /// See dashmap.
         pub fn is_empty(&self) -> bool {
             step(Site::MapLen, 0);
-            super::check_self_deadlock(usize::MAX, false);
+            super::acquire(self.id(), usize::MAX, false);
             self.inner.is_empty()
         }
         /// See dashmap.
         pub fn iter(&self) -> Iter<'_, K, V> {
             step(Site::MapIter, 0);
-            super::check_self_deadlock(usize::MAX, false);
+            super::acquire(self.id(), usize::MAX, false);
             Iter {
-                _g: DepthGuard::holding(usize::MAX, false),
+                _g: DepthGuard::holding(self.id(), usize::MAX, false),
                 inner: self.inner.iter(),
             }
         }
         /// See dashmap.
         pub fn iter_mut(&self) -> IterMut<'_, K, V> {
             step(Site::MapIter, 0);
-            super::check_self_deadlock(usize::MAX, true);
+            super::acquire(self.id(), usize::MAX, true);
             IterMut {
-                _g: DepthGuard::holding(usize::MAX, true),
+                _g: DepthGuard::holding(self.id(), usize::MAX, true),
                 inner: self.inner.iter_mut(),
             }
         }
@@ -794,9 +819,9 @@ pub mod map {
             let fp = fingerprint(&key);
             step(Site::MapOther, fp);
             let shard = self.shard_of(&key);
-            super::check_self_deadlock(shard, true);
+            super::acquire(self.id(), shard, true);
             Entry {
-                g: DepthGuard::holding(shard, true),
+                g: DepthGuard::holding(self.id(), shard, true),
                 inner: self.inner.entry(key),
             }
         }
